@@ -514,6 +514,15 @@ Definition set_comp_defaults : cmd :=
        CSet (C "arith_code") (P "arithmetic") ;;
        CSet (C "comp_info") (P "subsamp")).
 
+(* the members a compression function assigns itself before setCompDefaults (regenerated list): data_precision
+   gets `prec`, the image dimensions come from the arguments *)
+Definition pre_defaults (fname : string) (prec : expr) : cmd :=
+  match find (fun p => String.eqb (fst p) fname) tj_pre_defaults with
+  | Some (_, fs) => seq (map (fun f => CSet (C f) (if String.eqb f "data_precision" then prec
+                                                  else if String.eqb f "image_width" then EA "w" else EA "h")) fs)
+  | None => CSkip
+  end.
+
 Definition observe_comp_params : cmd :=
   seq (map (fun f => CObs f (EG (C f))) comp_param_members_read).
 
@@ -557,8 +566,8 @@ Definition compress_body (fx : fixes) (bits : Z) : cmd :=
       caller_buffer ;;
       prologue ;; throw S_ARGS ;;
       CSetjmp 0 ;; CSet warning (EA "warn") ;;
-      CSet (C "image_width") (EA "w") ;; CSet (C "image_height") (EA "h") ;;
-      CSet (C "data_precision") (EIte (EAnd (P "lossless") (EA "prec_in_range")) (P "precision") (EC bits)) ;;
+      pre_defaults (if Z.eqb bits 8 then "tj3Compress8" else if Z.eqb bits 12 then "tj3Compress12" else "tj3Compress16")
+                   (EIte (EAnd (P "lossless") (EA "prec_in_range")) (P "precision") (EC bits)) ;;
       (if compress_defaults_before_dest
        then set_comp_defaults ;; CSet allocv (ENot (P "noRealloc")) ;; mem_dest fx
        else CSet allocv (ENot (P "noRealloc")) ;; mem_dest fx ;; set_comp_defaults) ;;
@@ -578,7 +587,7 @@ Definition prog_compress_yuv (fx : fixes) : prog :=
      (caller_buffer ;;
       prologue ;; throw S_ARGS ;;
       CSetjmp 0 ;; CSet warning (EA "warn") ;;
-      CSet (C "image_width") (EA "w") ;; CSet (C "image_height") (EA "h") ;; CSet (C "data_precision") (EC 8) ;;
+      pre_defaults "tj3CompressFromYUVPlanes8" (EC 8) ;;
       CSet allocv (ENot (P "noRealloc")) ;; mem_dest fx ;;
       set_comp_defaults ;;
       CSet (C "raw_data_in") (EC 1) ;;
@@ -595,7 +604,7 @@ Definition prog_encode_yuv : prog :=
   mk "tj3EncodeYUVPlanes8"
      (prologue ;; throw S_ARGS ;;
       CSetjmp 0 ;; CSet warning (EA "warn") ;;
-      CSet (C "image_width") (EA "w") ;; CSet (C "image_height") (EA "h") ;; CSet (C "data_precision") (EC 8) ;;
+      pre_defaults "tj3EncodeYUVPlanes8" (EC 8) ;;
       set_comp_defaults ;;
       CIf (ENe (EG gsc) (EC cstate_start)) THROW CSkip ;;
       stage S_CSTART ;;
